@@ -9,6 +9,8 @@ package primsim
 import (
 	"fmt"
 	"os"
+	"runtime"
+	"strings"
 	"sync"
 	"testing/synctest"
 
@@ -51,6 +53,7 @@ type Sched struct {
 	SiteHits map[string]int64
 	Stuck    bool // step budget exhausted with runnable tasks left
 	Debug    bool
+	Panic    string // first panic raised by a task, with the /repo frame it came from
 	// Finer-grain filter: which sites are live this run (nil = all).
 	Live func(site string) bool
 }
@@ -71,6 +74,16 @@ func (s *Sched) Go(fn func(id int)) int {
 	go func() {
 		s.byGoid[sim.Goid()] = t
 		close(ready)
+		defer func() {
+			// A panic in the code under test ends the task, not the worker:
+			// it becomes a violation with a minimised, replayable schedule.
+			if r := recover(); r != nil {
+				if s.Panic == "" {
+					s.Panic = fmt.Sprintf("task %d panicked: %v%s", t.id, r, repoFrame())
+				}
+				t.done = true
+			}
+		}()
 		s.yield("task.start")
 		fn(t.id)
 		t.done = true
@@ -104,6 +117,22 @@ func (s *Sched) yield(site string) {
 // Yield is an explicit schedule point for harness code (e.g. inside a
 // critical section or a callback).
 func (s *Sched) Yield(site string) { s.yield(site) }
+
+// repoFrame names the innermost frame of /repo on the panicking stack.
+func repoFrame() string {
+	pc := make([]uintptr, 40)
+	n := runtime.Callers(3, pc)
+	fr := runtime.CallersFrames(pc[:n])
+	for {
+		f, more := fr.Next()
+		if strings.HasPrefix(f.File, "/repo/") {
+			return fmt.Sprintf(" at %s (%s:%d)", f.Function, strings.TrimPrefix(f.File, "/repo/"), f.Line)
+		}
+		if !more {
+			return ""
+		}
+	}
+}
 
 func tryLock(l interface{}, write bool) bool {
 	switch m := l.(type) {
